@@ -38,7 +38,16 @@ def c07(ctx):
         ctx.inconclusive.append("cross-process digests missing")
 
 
+def c12(ctx):
+    ctx.gotest("refserver", "^TestVerifC12", race=False, timeout=1800)
+
+
 SPECS = {
+    "C12": {"fn": c12, "level": "exploration",
+            "technique": "runtime monitoring: the real referenceServerChecks middleware and real reference servers (HTTP/1.1, h2c, TLS, mTLS) observed under the full expected x actual matrix and a timeout-grammar model (regular expression + big-integer conversion)",
+            "text": "Every realisable actual request shape is sent against every expected tuple (466k handler calls, exhaustive) and the feedback lines are compared with the set of differing aspects; timeout strings are enumerated exhaustively at the length/unit boundaries and sampled beyond, compared with a grammar + exact-conversion model; wire runs repeat the aspect check through real listeners with a plain HTTP client.",
+            "note": "Feedback lines are classified by the aspect keyword they contain; trusts net/http for HTTP/1.1/h2c/TLS transport.",
+            "assumptions": ["feedback lines are attributed to aspects by keyword (http version, http method, protocol, codec, compression, tls/plain-text, client cert)"]},
     "C07": {"fn": c07, "level": "exploration",
             "technique": "runtime monitoring: reference-model monitor (independent selection/naming/population model) compared with the real newTestCaseLibrary/allPermutations/casesByServer on generated suite sets, repeated expansions and a second process",
             "text": "newTestCaseLibrary is executed on thousands of generated suite sets x config-case sets x modes (each 5 times, and once more in a second process to vary map iteration order) and on the embedded corpus x shipped configs; an independent model decides existence, full name, request axes, TLS markers, default service/method, single server group, gRPC-peer applicability and marked names, and which suite sets must be rejected.",
